@@ -5,14 +5,10 @@ C01, step 5: one operation of the fragment F at a time (the law itself is in `Si
 * `Hyps` — the named hypotheses: `LawfulAmp`, `LawfulSim`, `LawfulWeights` (arithmetic of amplitudes and
   weights), `GateSemOK` (every valid gate instance acts as its documented embedded unitary, C04+C05) and
   `GateRuns` (the routes of valid gate instances return).
-* `InF n valid op` — the fragment F, per operation: no `peek`, `peek_all`, `reset_all`; gate instances
-  valid; qubits `< n`; classical bits `< 64` (a larger one is a shift-overflow panic, D10); control lists of
-  at most 64 bits `< 64`.
-* `op_step` — one operation: if the continuation's expectation is multiplicative over ranges (`Mult K g`)
-  and `g` is quadratically homogeneous, the expectation of the operation followed by the continuation is
-  `∏_ranges (stepGf op g)(state, word)^count`.
-* `exec_gf` — the law for operation lists, by induction; `histogram_gf` from `|0…0⟩`, `N ≥ 1` shots;
-  `zero_prob_never`; `exec_total` (a circuit of F never fails: total probability 1).
+* `Mult K g` — the continuation's expectation is multiplicative over ranges; the step lemmas
+  (`mult_postGate`, `measure_step`, `reset_step`, `cond_step`; `measureAll_step` is in `SimGFAll.lean`) say:
+  if `Mult K g` and `g` is quadratically homogeneous, the expectation of the operation followed by the
+  continuation is `∏_ranges (stepGf op g)(state, word)^count`.
 -/
 set_option linter.unusedSectionVars false
 set_option linter.unusedSimpArgs false
@@ -30,7 +26,10 @@ section exec
 variable [CommRing α] [Amp α P] [SimAmp α] [CommRing R] {nz : α → Prop} {n N : Nat}
 variable {valid : GateTerm P → List Nat → Prop}
 
-/-- the hypotheses of the law -/
+/-- the hypotheses of the law.  Fields actually used by the proofs of C01: `amp.conj_mul`, `amp.conj_one`;
+`sim.normSq_eq`, `sim.rsqrt_mul`, `sim.rsqrt_real`; all four fields of `wts`; `sem.mat`, `sem.vec`, `sem.iso`,
+`sem.basis`; all three fields of `runs`.  (`sem.hh`, `sem.ssdg`, `sim.min1_nz0/1` and the trigonometric part of
+`amp` are not used; they belong to the shared bundles of C02/C05.) -/
 structure Hyps (α P : Type) [CommRing α] [Amp α P] [SimAmp α] (nz : α → Prop) (n : Nat)
     (valid : GateTerm P → List Nat → Prop) : Prop where
   amp : LawfulAmp α P
